@@ -100,7 +100,7 @@ type CC interface {
 // two files use the same alias for two different packages
 const cliSrcM1 = `package cli
 
-import model "example.com/m/a/foo"
+import model "example.com/m/q/one"
 
 type M1 interface {
 	One(x model.T) model.T
@@ -109,7 +109,7 @@ type M1 interface {
 
 const cliSrcM2 = `package cli
 
-import model "example.com/m/b/foo"
+import model "example.com/m/q/two"
 
 type M2 interface {
 	Two(y model.T) model.T
@@ -229,7 +229,7 @@ func (fx *Fixture) newSandbox(work string, version int) *e5Sandbox {
 	sandboxMu.Unlock()
 	root := filepath.Join(work, "sb", fmt.Sprint(n))
 	writeFile(filepath.Join(root, "go.mod"), "module "+modPath+"\n\ngo 1.24\n")
-	for _, d := range []string{"~/a/foo", "~/b/foo", "~/d/bar", "~/v1/api", "~/v2/api"} {
+	for _, d := range []string{"~/a/foo", "~/b/foo", "~/d/bar", "~/v1/api", "~/v2/api", "~/q/one", "~/q/two"} {
 		writeFile(filepath.Join(root, d[2:], "p.go"), depBody(depName(d)))
 	}
 	pkg := filepath.Join(root, "s", "cli")
